@@ -777,6 +777,8 @@ def _cumsum(a, axis=None, **kw):
 
 
 def _isclose(a, b, rtol=1e-05, atol=1e-08, **kw):
+    a = a if isinstance(a, (SV, SymArray)) else _np.asarray(a)
+    b = b if isinstance(b, (SV, SymArray)) else _np.asarray(b)
     d = abs(a - b)
     return d <= atol + rtol * abs(b)
 
@@ -810,6 +812,7 @@ _FUNCS = {
     "mean": _mean, "std": _std, "var": _var, "dot": _matmul, "matmul": _matmul,
     "copy": lambda a, **kw: _np.array(_raw(a), dtype=object, copy=True).view(SymArray),
     "isclose": _isclose,
+    "allclose": lambda a, b, rtol=1e-05, atol=1e-08, **kw: _all(_isclose(a, b, rtol, atol)),
     "median": lambda a, axis=None, **kw: _percentile(a, 50, axis),
     "size": _size, "ndim": _ndim,
 }
